@@ -52,6 +52,7 @@ def prettify_parse_error(parse_error: ParseError) -> ParseError:
         RuleExpr("freeform_unit"): "<text>",
         # Add regex descriptions
         RegexExpr("[0-9]+"): "<number>",
+        RegexExpr("0*[1-9][0-9]*"): "<number>",
         RegexExpr("[^0-9{}\n\r]"): "<text>",
         RegexExpr('[^"\n\r]'): "<text>",
         RegexExpr("[^'\n\r]"): "<text>",
